@@ -422,12 +422,16 @@ MAL_ALPHABET = ["C", "H", "#", "b", "z", "1", "-", " "]
 def classify_text(s):
     """'valid' | 'malformed' | 'ambiguous' for a candidate note text."""
     import re
-    if re.match(r"^[A-G][#b]*(-[0-9]+)?$", s):
+    if re.match(r"^[A-G][#b]*(-[0-9]+)?\Z", s):         # \Z, not $: "C#\n" is not a note text
         return "valid"
     if s and s[0] in "abcdefg":
         return "ambiguous"                      # a lower-case note name
     t = s.replace(" ", "")
-    if re.match(r"^[A-G][#b]*-?-?[0-9]+$", t) or (t != s and re.match(r"^[A-G][#b]*$", t)):
+    if re.match(r"^[A-G][#b]*-[0-9]+\s+\Z", s):
+        return "ambiguous"                      # white space after the octave number: int() reads it, not judged
+    if "\n" in s or "\t" in s:
+        return "malformed"
+    if re.match(r"^[A-G][#b]*-?-?[0-9]+\Z", t) or (t != s and re.match(r"^[A-G][#b]*\Z", t)):
         return "ambiguous"                      # blanks, scientific 'C4', negative octave 'C--1'
     return "malformed"
 
@@ -437,7 +441,8 @@ def malformed_texts(maxlen):
     for k in range(1, maxlen + 1):
         for tup in itertools.product(MAL_ALPHABET, repeat=k):
             out.append("".join(tup))
-    extra = ["C-4-5", "C-x", "C#-", "-4", "H-4", "Cz", "C-4.5", "4", "#C", "C-#", "Z", "Do", "C-4-", "C#-b", "I", "C-4#"]
+    extra = ["C-4-5", "C-x", "C#-", "-4", "H-4", "Cz", "C-4.5", "4", "#C", "C-#", "Z", "Do", "C-4-", "C#-b", "I", "C-4#",
+             "C\n", "C#\n", "Bb\n", "E-4\n", "C\n\n", "\nC", "C\t", "Gbb\n"]
     res = []
     for s in out + extra:
         if classify_text(s) == "malformed" and s not in res:
